@@ -70,6 +70,28 @@ let parse_apro (s:string) : (z list -> pmeta option) =
       | _ -> failwith "apro") (split_on ';' s) in
   fun p -> List.assoc_opt p tbl
 
+(* the port tree of the case line (harness/h_C12_app.h), for Ports::apropos' model:
+   <level0>|<level1>|<level2>, items p,<fid>,<name hex>,<metadata hex>; the ports of
+   fid sub / arr / ptr carry the next level's table.  A "static@" prefix is dropped. *)
+let tree_of (s:string) : port0 list =
+  let s = if String.length s >= 7 && String.sub s 0 7 = "static@" then String.sub s 7 (String.length s - 7) else s in
+  let levels = Array.of_list (String.split_on_char '|' s) in
+  let rec table (t:int) : port0 list =
+    if t >= Array.length levels then [] else
+      List.filter_map (fun item ->
+          match String.split_on_char ',' item with
+          | ["p"; fid; nm; meta] ->
+            let sub = if fid = "sub" || fid = "arr" || fid = "ptr" then Some (table (t + 1)) else None in
+            Some (Port (bytes_of_hex nm, Some (bytes_of_hex meta), sub))
+          | _ -> None) (split_on ';' levels.(t)) in
+  table 0
+let parse_apro_tree (tree:string) : (z list -> pmeta option) =
+  let root = tree_of tree in
+  let memo = Hashtbl.create 64 in
+  fun p -> match Hashtbl.find_opt memo p with
+    | Some r -> r
+    | None -> let r = apropos_of_tree root p in Hashtbl.add memo p r; r
+
 let fuel = nat_of_int 40
 
 let run_ops (a:port list) (mops:string) (st:value list) : value list =
@@ -114,9 +136,9 @@ let parse_item (s:string) : item =
 let () = each_line (fun line ->
   try
     match String.split_on_char ' ' line with
-    | "save" :: _ :: flat :: _ :: apro :: mops :: _ ->
+    | "save" :: tree :: flat :: _ :: _ :: mops :: _ ->
       let a = parse_app flat in
-      let ap = parse_apro apro in
+      let ap = parse_apro_tree tree in
       let st0 = initial a in
       let sa = run_ops a mops st0 in
       let ls = save_lines a sa in
@@ -126,9 +148,9 @@ let () = each_line (fun line ->
        | Some (r, sb) ->
          Printf.printf "hdr=1 lines=%s ret=%s A=%s B=%s fresh=%s\n" (show_lines ls) (z_to_string r)
            (dump a sa) (dump a sb) (show_lines (save_lines a st0)))
-    | "perm" :: _ :: flat :: _ :: groups :: apro :: mops :: _ ->
+    | "perm" :: tree :: flat :: _ :: groups :: _ :: mops :: _ ->
       let a = parse_app flat in
-      let ap = parse_apro apro in
+      let ap = parse_apro_tree tree in
       let st0 = initial a in
       let sa = run_ops a mops st0 in
       let ls = Array.of_list (sort_lines (save_lines a sa)) in
@@ -152,9 +174,9 @@ let () = each_line (fun line ->
               end) (split_on '/' g))) (split_on ';' groups) in
       Printf.printf "n=%d %s\n" n (String.concat ";" gs)
     | "macro" :: _ :: name :: meta :: _ -> Printf.printf "name=%s meta=%s\n" name meta
-    | "rej" :: _ :: flat :: _ :: appname :: apro :: absf :: _ ->
+    | "rej" :: tree :: flat :: _ :: appname :: _ :: absf :: _ ->
       let a = parse_app flat in
-      let ap = parse_apro apro in
+      let ap = parse_apro_tree tree in
       let st0 = initial a in
       (match split_on ';' absf with
        | [h1; h2; items] ->
